@@ -395,7 +395,11 @@ func c17Decoder(c *core.Ctx, r *core.Report, unm *ssa.Function) {
 								list = strings.Split(hooks, " ; ")
 							}
 							hasDur, layoutAt, timeBefore := false, -1, ""
+							foreign := ""
 							for i, h := range list {
+								if h != "StringToTimeDuration" && h != `StringToTime("2006")` && foreign == "" {
+									foreign = h
+								}
 								switch {
 								case h == "StringToTimeDuration":
 									hasDur = true
@@ -419,6 +423,8 @@ func c17Decoder(c *core.Ctx, r *core.Report, unm *ssa.Function) {
 								rs.fail("hooks", w+" hooks=["+hooks+"]: the timeLayout argument's hook is missing or preceded by "+timeBefore+", which converts dates with its own layout first")
 							case !layout && layoutAt >= 0:
 								rs.fail("hooks", w+" hooks=["+hooks+"]: a layout hook without a timeLayout argument")
+							case foreign != "" && timeBefore == "":
+								rs.fail("hooks", w+" hooks=["+hooks+"]: the hook "+foreign+" is not part of the decoder configuration (durations, and the time layout when it is asked for): it can convert a configured value on its way to the field")
 							}
 						}
 					}
